@@ -39,6 +39,12 @@ PATTERNS = [(E(p_), f_) for p_, f_ in [
 ]] + [(b'^.\xe9', ''), (b'caf[\xe9]', '')]
 
 
+# a header name and a configuration directory with characters of several bytes / two columns: the head `conf:lno: name: ` of an
+# explanation must be accounted for in columns
+HNAME_MB = E('S\u00e9')
+CONFDIR_MB = E('d\u00e9\u4e2d')
+
+
 def qword(b, charset=b'utf-8', upper=False):
     w = b''.join((b'=%02X' % c) if (c >= 127 or c < 33 or c in b'=?_') else bytes([c]) for c in b)
     return b'=?' + charset + (b'?Q?' if upper else b'?q?') + w + b'?='
@@ -77,7 +83,8 @@ def population(rng, nvalues):
         for f in subject_forms(rng, v):
             if rng.random() < 0.5 or f is v:
                 body = b'first line\n' + v + b'\nlast ' + v + b' line\n'
-                msgs.append((k, b'To: user%d@example.com\nX-Id: %d\nSubject: ' % (k, k) + f + b'\nMIME-Version: 1.0\n\n' + body))
+                msgs.append((k, b'To: user%d@example.com\nX-Id: %d\nSubject: ' % (k, k) + f + b'\n' + HNAME_MB + b': ' + f +
+                             b'\nMIME-Version: 1.0\n\n' + body))
                 k += 1
     return msgs
 
@@ -85,18 +92,22 @@ def population(rng, nvalues):
 class Family:
     """One configuration (a single rule) over the population, to be run in every locale."""
 
-    def __init__(self, kind, pat, flags, msgs):
+    def __init__(self, kind, pat, flags, msgs, hname=b'Subject', confdir=None):
         self.kind, self.patb, self.flags, self.msgs = kind, pat, flags, msgs   # kind: 'header' | 'body'; pat: bytes, flags: ''|'i'
+        self.hname, self.confdir = hname, confdir      # header looked at; directory (relative to the sandbox) of a second copy of the configuration given with -f
         self.result = {}
 
     def config(self):
-        cond = 'header "Subject"' if self.kind == 'header' else 'body'
+        cond = ('header "%s"' % self.hname.decode('latin-1')) if self.kind == 'header' else 'body'
         return 'maildir "@R@/src" {\n\tmatch %s /%s/%s move "@R@/dst"\n}\n' % (cond, self.patb.decode('latin-1'), self.flags)
 
     def readable(self):
-        return {'rule': 'match %s /%s/%s move "dst"' % ('header "Subject"' if self.kind == 'header' else 'body',
-                                                          self.patb.decode('utf-8', 'backslashreplace'), self.flags),
-                'pattern_bytes': repr(self.patb)}
+        r = {'rule': 'match %s /%s/%s move "dst"' % (('header "%s"' % self.hname.decode('utf-8')) if self.kind == 'header' else 'body',
+                                                     self.patb.decode('utf-8', 'backslashreplace'), self.flags),
+             'pattern_bytes': repr(self.patb)}
+        if self.confdir:
+            r['configuration'] = '-f %s/conf' % self.confdir.decode('utf-8')
+        return r
 
 
 def families(rng, tier):
@@ -107,9 +118,9 @@ def families(rng, tier):
         pats = pats[:26]
     fams = []
     for i, (p, f) in enumerate(pats):
-        fams.append(Family('header', p, f, msgs))
+        fams.append(Family('header', p, f, msgs, hname=HNAME_MB if i % 4 == 1 else b'Subject', confdir=CONFDIR_MB if i % 5 == 2 else None))
         if i % 3 == 0:
-            fams.append(Family('body', p, f, msgs))
+            fams.append(Family('body', p, f, msgs, confdir=CONFDIR_MB if i % 2 else None))
     return fams
 
 
@@ -146,11 +157,24 @@ def run_family(tools, fam, locales=mbtext.LOCALES):
         spec = ws.Spec('locale-%s' % locale, fam.config(), tree=tree, env={'LC_ALL': locale})
         scen = spec.build(tools)
         try:
-            scen.args = ['-d']
+            fopt, conf = [], (scen.root + '/conf').encode()
+            if fam.confdir:
+                # the same configuration once more under a directory with a non-ASCII name, named relative to the working directory
+                import os
+                import proc
+                for base in (scen.root, scen._saved):
+                    dd = os.path.join(proc.fsb(base), fam.confdir)
+                    os.makedirs(dd, exist_ok=True)
+                    with open(os.path.join(dd, b'conf'), 'wb') as fh:
+                        fh.write(scen.config.encode('latin-1'))
+                scen.initial = proc.snapshot(scen.root, skip=('conf',))
+                conf = fam.confdir + b'/conf'
+                fopt = ['-f', conf]
+            scen.args = ['-d'] + fopt
             d = scen.run(trace=False)
             unchanged = d.final == scen.initial
             scen.reset()
-            scen.args = []
+            scen.args = list(fopt)
             r = scen.run(trace=False)
             listed = {}
             for path, e in parse_dry(d.out, scen.root).items():
@@ -163,7 +187,7 @@ def run_family(tools, fam, locales=mbtext.LOCALES):
                     i = ws.msg_id(data)
                     if i is not None:
                         moved.add(i)
-            fam.result[locale] = {'dry': listed, 'moved': moved, 'status': (d.status, r.status), 'root': scen.root,
+            fam.result[locale] = {'dry': listed, 'moved': moved, 'status': (d.status, r.status), 'root': scen.root, 'conf': conf,
                                   'dry_changed_tree': not unchanged, 'stderr': (d.err + r.err)[-300:].decode('latin-1')}
         finally:
             scen.cleanup()
@@ -191,7 +215,7 @@ def reference(fams, locale):
         fl = vlib.hexs(f.flags.encode() or b'-')
         for k, m in f.msgs:
             if f.kind == 'header':
-                reqs.append('S hcond %s %s %s %s' % (vlib.hexs(b'Subject'), vlib.hexs(f.patb), fl, vlib.hexs(m)))
+                reqs.append('S hcond %s %s %s %s' % (vlib.hexs(f.hname), vlib.hexs(f.patb), fl, vlib.hexs(m)))
             else:
                 if bodies.get(k) is None:
                     res[(fi, k)] = None
